@@ -5,7 +5,7 @@
    correspondence check; theorems over the reals for ALL inputs. *)
 From Coq Require Import Reals ZArith QArith List String Bool.
 From Verif Require Import Scalar RInst KField KtoR Quat QuatAlg GroupK Groups GroupFacts SymDot SymDotK ZoneModel ZoneProofs
-  CertCheck CertSound RegionCertsAll RegionCertsAllOK ExistCheck RegionExistAllOK UniqCheck UniqSound RegionUniqAllOK.
+  CertCheck CertSound RegionCertsAll RegionCertsAllOK ExistCheck RegionExistAllOK UniqCheck UniqSound RegionUniqAllOK ProperGroups AllPairsCheck AllPairs.
 Import ListNotations.
 Local Open Scope R_scope.
 
@@ -153,9 +153,33 @@ Theorem C05_representative_unique_off_boundary : forall rc, In rc (List.concat a
 Proof. exact reduce_representative_unique. Qed.
 Print Assumptions C05_representative_unique_off_boundary.
 
+(* ALL ORDERED PAIRS OF THE 38 NAMED POINT GROUPS for which get_proper_groups defines a region (1300 pairs; improper
+   groups included).  get_proper_groups is TRANSLATED from the source on every run (Gen/ProperGroups.v); the loop runs
+   over the pairs of two proper or two improper operations (Model/ZoneModel.code_pairs); an exhaustive exact check in K
+   shows that these pairs are, up to the signs of the quaternions, exactly the pairs of operations of the two proper
+   groups get_proper_groups selects.  Hence for every such pair of groups and every input M the value returned by the
+   loop lies inside the region built for the selected groups, is gl * M * gr for one of the code's pairs, and no pair
+   gives a smaller rotation angle. *)
+Theorem C05_all_group_pairs : forall g1 g2, In g1 groups -> In g2 groups ->
+  forall n1 n2, gpg_names g1 g2 = Some (n1, n2) ->
+  exists rc, find_rc n1 n2 = Some rc /\
+  forall M : quat (T:=R),
+  let pairs := map pairR (code_pairs (g_elems g1) (g_elems g2)) in
+  let N := map qtoR (rc_N rc) in
+  let r := reduce_loop ROps 0 N pairs M (qone ROps) in
+  inside_region ROps 0 N r = true /\
+  (exists ab, In ab pairs /\ r = transform ROps (fst ab) (snd ab) M) /\
+  (forall ab, In ab pairs -> Rabs (qre (transform ROps (fst ab) (snd ab) M)) <= Rabs (qre r)).
+Proof. exact all_group_pairs. Qed.
+Print Assumptions C05_all_group_pairs.
+
+Theorem C05_pairs_with_a_region : n_pairs_with_region = 1300%nat.
+Proof. exact n_pairs_with_region_is. Qed.
+Print Assumptions C05_pairs_with_a_region.
+
 (* Modelled, not proved: the 1e-9 tolerance of the inside test (the theorems are for the exact test, eps = 0; the
    correspondence runs the model with eps = 1e-9 against the code, and the oracle probes points on and within 1e-9 of
-   faces, edges and vertices); improper groups enter through get_proper_groups (modelled in the correspondence). *)
+   faces, edges and vertices); for improper groups the uniqueness theorems are stated for the selected proper groups only. *)
 
 Example C05_nonvacuous :
   inside_region ROps 0 (large_cell ROps [(0, 1, 0, 0)]) (1, 0, 0, 0) = true.
